@@ -18,6 +18,11 @@ VALUES2 = {"opt": [-1024.0], "edge": [-1024.0 + 2.0 ** -27, -1024.0 - 2.0 ** -27
            "out": [-1024.0 + 2.0 ** -26, -1024.0 - 3 * 2.0 ** -27, "W", 5.0, -1024.0 + 2.0 ** -20, "B"]}
 # "W" / "B": the infinity that is the worst / the best value for the direction - an objective may return them itself
 # (death penalty for infeasible points); a wrapper must treat them like any other value
+# decimal optimum and precision (neither 0.3 nor 0.1 nor their sum / difference is a double): "within the precision" is
+# decided on the exact values of the doubles involved (Fractions, below) - 0.4 is OUTSIDE 0.3 +- 0.1, 0.2 is inside
+OPT3, EPS3 = 0.3, 0.1
+VALUES3 = {"opt": [0.3], "edge": [0.2, 0.39999999999999997, 0.20000000000000004, 0.19999999999999998],
+           "out": [0.4, 0.19999999999999996, "W", 0.5, 0.4000000000000001, "B"]}
 VALUES = {"opt": [1.0], "edge": [1.25, 0.75], "out": [1.5, -3.0, "W", 1.2500000000000002, "B"]}
 BOUNDS = np.array([[-2.0, 3.0], [0.5, 0.75]])
 
@@ -31,6 +36,22 @@ class Base:
         self.calls += 1
         self.last_args = (args, dict(kwargs))
         return self.values[self.calls - 1]
+
+
+def _check_classes():
+    """the value classes are what exact arithmetic on the doubles says (no float subtraction in the oracle)"""
+    from fractions import Fraction as F
+    for opt, eps, vals in ((OPT, EPS, VALUES), (OPT2, EPS2, VALUES2), (OPT3, EPS3, VALUES3)):
+        for cls, vs in vals.items():
+            for v in vs:
+                if isinstance(v, str):
+                    continue
+                d = abs(F(v) - F(opt))
+                real = "opt" if d == 0 else "edge" if d <= F(eps) else "out"
+                assert (real == cls) or (cls == "edge" and real in ("opt", "edge")), (opt, eps, v, cls, real)
+
+
+_check_classes()
 
 
 def build(stack, maximize, opt=OPT, eps=EPS):
@@ -61,9 +82,9 @@ def main(table_path, out_path):
                 continue
             c = json.loads(line)
             distinct += 1
-            for maximize, conc in ((False, 1), (True, 1)) + (((False, 2), (True, 2)) if "precision" in c["stack"] else ()):
-                VAL = VALUES if conc == 1 else VALUES2
-                base, fp, top, layers = build(c["stack"], maximize, *((OPT, EPS) if conc == 1 else (OPT2, EPS2)))
+            for maximize, conc in ((False, 1), (True, 1)) + (((False, 2), (True, 2), (bool(li % 2), 3)) if "precision" in c["stack"] else ()):
+                VAL = {1: VALUES, 2: VALUES2, 3: VALUES3}[conc]
+                base, fp, top, layers = build(c["stack"], maximize, *{1: (OPT, EPS), 2: (OPT2, EPS2), 3: (OPT3, EPS3)}[conc])
                 worst = -math.inf if maximize else math.inf
                 # concrete values for the classes (vary the representative with the position)
                 vals = [VAL[cls][(li + j) % len(VAL[cls])] for j, cls in enumerate(c["calls"])]
@@ -71,7 +92,7 @@ def main(table_path, out_path):
                 base.values = list(vals) + [0.0] * 8
                 ents = c.get("ents") or [1] * len(c["calls"])     # layer (1 = top) each call enters the stack at
                 sig0 = f"stack={'/'.join(c['stack'])} maximize={maximize} calls={','.join(c['calls'])}" + (
-                    f" entering_at_layer={','.join(map(str, ents))}" if any(e != 1 for e in ents) else "") + (" optimum=-1024 precision=2^-27" if conc == 2 else "")
+                    f" entering_at_layer={','.join(map(str, ents))}" if any(e != 1 for e in ents) else "") + (" optimum=-1024 precision=2^-27" if conc == 2 else " optimum=0.3 precision=0.1" if conc == 3 else "")
                 # static transparency
                 if not (np.array_equal(top.bounds, BOUNDS) and top.maximize == maximize
                         and get_function_problem(top) is fp):
